@@ -35,6 +35,9 @@ pub struct C10 {
     pub extras: Vec<F>,
     pub variants: Vec<Variant>,
     pub hash_seed: u64,
+    /// session use of the public evaluation context: after the first evaluation the same labels
+    /// are bound again, to the raw results of *these* sub-formulae, in the same `EvalContext`
+    pub rebind: Option<BTreeMap<String, F>>,
 }
 
 pub fn expand(f: &F, bindings: &BTreeMap<String, F>) -> F {
@@ -65,6 +68,8 @@ impl C10 {
             "extras": self.extras.iter().map(|f| f.to_json()).collect::<Vec<_>>(),
             "extras_text": self.extras.iter().map(|f| f.render()).collect::<Vec<_>>(),
             "hash_seed": self.hash_seed,
+            "rebind": self.rebind.as_ref().map(|m| m.iter().map(|(l, f)| (l.clone(), f.to_json())).collect::<BTreeMap<_, _>>()),
+            "rebind_text": self.rebind.as_ref().map(|m| m.iter().map(|(l, f)| (l.clone(), f.render())).collect::<BTreeMap<_, _>>()),
             "variants": self.variants.iter().map(|v| json!({
                 "order": v.order, "mode": v.mode.name(), "observer": v.obs.to_json(), "hash_seed": v.hash_seed
             })).collect::<Vec<_>>(),
@@ -82,7 +87,18 @@ impl C10 {
             extras.push(F::from_json(f)?);
         }
         let c = crate::c04::C04::from_json(&json!({"batch": [], "variants": v["variants"]}))?;
+        let rebind = match v["rebind"].as_object() {
+            Some(m) => {
+                let mut out = BTreeMap::new();
+                for (l, f) in m {
+                    out.insert(l.clone(), F::from_json(f)?);
+                }
+                Some(out)
+            }
+            None => None,
+        };
         Ok(C10 {
+            rebind,
             rewritten: F::from_json(&v["rewritten"])?,
             bindings,
             via_archive: v["via_archive"].as_bool().unwrap_or(false),
@@ -180,7 +196,23 @@ pub fn generate(rng: &Rng, world: &World) -> C10 {
     let pos = r.below(order.len() + 1);
     order.insert(pos, 0);
     variants.push(Variant { order, mode: *r.pick(&modes), obs: ObsKind::None, hash_seed: hs.next_u64() });
-    C10 { rewritten, bindings, via_archive: r.chance(1, 3), extras, variants, hash_seed: hs.next_u64() }
+    // a second binding of the same labels for the session scenario
+    let rebind = if !bindings.is_empty() && r.chance(1, 3) {
+        let mut m = BTreeMap::new();
+        let mut c2 = cfg.clone();
+        c2.labels.clear();
+        c2.allow_wild = false;
+        c2.max_size = 6;
+        let p2 = Pool::generate(&mut r, &c2);
+        let g2 = Gen { cfg: &c2, pool: &p2 };
+        for l in bindings.keys() {
+            m.insert(l.clone(), g2.formula(&mut r));
+        }
+        Some(m)
+    } else {
+        None
+    };
+    C10 { rewritten, bindings, via_archive: r.chance(1, 3), extras, variants, hash_seed: hs.next_u64(), rebind }
 }
 
 fn with_ctx(env: &Env, ctx: HashMap<String, Gcv>) -> Env {
@@ -362,6 +394,53 @@ pub fn check(world: &World, sc: &C10, sandbox: &str) -> Report {
         "the original evaluated alone",
         &|i| i == 0,
     );
+    // session: one evaluation context, the labels bound twice (public EvalContext / eval_node API)
+    if let Some(second) = &sc.rebind {
+        if second.values().all(|f| f.is_closed() && f.well_scoped() && f.quant_depth() <= world.k as usize) && second.keys().all(|l| sc.bindings.contains_key(l)) {
+            let mut raws2: HashMap<String, Gcv> = HashMap::new();
+            let mut ok = true;
+            for (i, (l, sub)) in second.iter().enumerate() {
+                match isolated(sc.hash_seed.wrapping_add(300 + i as u64), || evalx::alone(&env, sub)) {
+                    Outcome::Ok(s2) => {
+                        raws2.insert(l.clone(), s2);
+                    }
+                    _ => ok = false,
+                }
+            }
+            let mut all2 = sc.bindings.clone();
+            for (l, f) in second {
+                all2.insert(l.clone(), f.clone());
+            }
+            let original2 = expand(&sc.rewritten, &all2);
+            let want2 = isolated(sc.hash_seed.wrapping_add(350), || evalx::alone(&env, &original2));
+            if let (true, Outcome::Ok(want2)) = (ok, want2) {
+                let first_ctx: HashMap<String, Gcv> = env2.ctx.clone();
+                let r = isolated(sc.hash_seed.wrapping_add(351), || evalx::session_rebind(&env2, &sc.rewritten, &first_ctx, &raws2));
+                rep.probe("session_rebinds", 1);
+                rep.event(format!("session {}", match &r { Outcome::Ok((a, b)) => format!("{} {}", evalx::set_sig(a), evalx::set_sig(b)), o => o.describe() }));
+                match r {
+                    Outcome::Ok((first, again)) => {
+                        if !evalx::same_set(&first, &want) {
+                            rep.violate("substituted_vs_original", format!("session step 1 `{}`: {} (substituted vs original)", sc.rewritten.render(), evalx::describe_diff(&env, &first, &want)));
+                        } else if !evalx::same_set(&again, &want2) {
+                            rep.violate(
+                                "rebound_label_in_session",
+                                format!(
+                                    "`{}`: labels bound to {:?}, evaluated, then bound to {:?} in the same evaluation context: {} (second evaluation vs original `{}`)",
+                                    sc.rewritten.render(),
+                                    sc.bindings.iter().map(|(l, f)| format!("{l}:={}", f.render())).collect::<Vec<_>>(),
+                                    second.iter().map(|(l, f)| format!("{l}:={}", f.render())).collect::<Vec<_>>(),
+                                    evalx::describe_diff(&env, &again, &want2),
+                                    original2.render()
+                                ),
+                            );
+                        }
+                    }
+                    other => rep.violate("substituted_fails", format!("session `{}`: {}", sc.rewritten.render(), other.describe())),
+                }
+            }
+        }
+    }
     // plain formula through the extended entry points with an empty context
     if original.is_plain() {
         let text = original.render();
@@ -427,6 +506,20 @@ pub fn shrinks(sc: &C10) -> Vec<C10> {
         s.via_archive = false;
         out.push(s);
     }
+    if sc.rebind.is_some() {
+        let mut s = sc.clone();
+        s.rebind = None;
+        out.push(s);
+    }
+    if let Some(m) = &sc.rebind {
+        for (l, f) in m {
+            for g in f.shrinks() {
+                let mut s = sc.clone();
+                s.rebind.as_mut().unwrap().insert(l.clone(), g);
+                out.push(s);
+            }
+        }
+    }
     // drop an extra (orders refer to extras by index + 1)
     for i in 0..sc.extras.len() {
         let mut s = sc.clone();
@@ -464,6 +557,9 @@ pub fn shrinks(sc: &C10) -> Vec<C10> {
             let mut s = sc.clone();
             s.rewritten = expand(&sc.rewritten, &one);
             s.bindings.remove(l);
+            if let Some(m) = s.rebind.as_mut() {
+                m.remove(l);
+            }
             out.push(s);
         }
     }
@@ -471,6 +567,9 @@ pub fn shrinks(sc: &C10) -> Vec<C10> {
     for g in sc.rewritten.shrinks() {
         let mut s = sc.clone();
         s.bindings.retain(|l, _| g.count_wild(l) > 0);
+        if let Some(m) = s.rebind.as_mut() {
+            m.retain(|l, _| g.count_wild(l) > 0);
+        }
         s.rewritten = g;
         if !s.bindings.is_empty() {
             out.push(s);
